@@ -30,6 +30,18 @@ CLAIMED = {
         note='Trusted: Coq kernel + vm_compute, translator (generator table, block set-up), extraction, harness; Spec/GF256.v, '
              'Spec/RSCode.v as transcription of the standard. No axioms.',
         technique='Coq proof: loop invariant over GF(256) with ring reasoning (char-2 coefficient morphism), kernel sweeps for tables; differential correspondence'),
+    'C07': dict(
+        text='Theorems (Coq, axiom-free): C07_table -- for each of the 48 mapping-matrix sizes the (codeword, bit) table computed '
+             'by the model of IndexTraversal::run (utah, four corners, wrap rules, DMRE row wrap, fixed corner pattern) equals '
+             'the table computed by a statement-by-statement transcription of the placement program of ISO/IEC 16022 Annex F.1 '
+             '(kernel evaluation over the whole domain: the traversal has no input but the dimensions, so this covers all '
+             'codeword vectors); C07_bijection -- exactly ntotal(s) codewords x 8 modules, all in range, NoDup, left-over modules '
+             'exactly the 2x2 corner of 12/16/20/24. The traversal model is tied to the code exhaustively (all 48 tables through '
+             'traverse_mut with a tagging Bit type at every run); value loops (new_with_codewords, codewords) by correspondence '
+             'and a direct Annex-F oracle. Partial: read-after-write identity for all values is not yet a Coq theorem.',
+        design_ref='DESIGN.md 6/C07',
+        note='Trusted: Coq kernel + vm_compute, Spec/AnnexF.v as transcription of the standard, extraction, harness, hook verif_entries. No axioms.',
+        technique='Coq proof by kernel evaluation over the complete finite domain (48 sizes) against a transcribed Annex F; exhaustive correspondence of the traversal'),
 }
 
 PENDING_REASON = 'check not built yet in this round (work proceeds in the order of DESIGN.md section 11); not claimed until its quick command exists'
